@@ -15,7 +15,7 @@ CHECKS = {
    note="trusted: simnet, synctest clock, seamgen overlay; the accept loop / original-destination lookup of handleNewConn is re-implemented by the harness; input space is sampled",
    tech=TECH + " (simulated TCP segmentation/pacing/clock, seeded search, differential twin run)"),
  "C04": dict(cat="exploration", ref="5 C04",
-   text="for min and every prefix id x flush policy x port mode all single cuts (offsets 1..89) of the real client's first flight + early data are enumerated, all cut pairs for min and a seed-rotated twelfth of the prefix parameter sets (thorough: all); generated runs add 1-3 concurrent clients (incl. obfs4 with the real interactive handshake), k-cut segmentations, pacing, early data up to 64 KiB and co-registrations; oracle: echo host got exactly the application bytes, client got the echo, one dial, registration still matchable after 11 min + sweep; the second connection is, in a third of the runs, a one-way transfer of a minute (upload into a silent covert, download to a silent client); the station holds 0-2 older private keys in front of the one the clients use",
+   text="for min and every prefix id x flush policy x port mode all single cuts (offsets 1..89) of the real client's first flight + early data are enumerated, all cut pairs for min and a seed-rotated twelfth of the prefix parameter sets (thorough: all); generated runs add 1-3 concurrent clients (incl. obfs4 with the real interactive handshake), k-cut segmentations, pacing, early data up to 64 KiB and co-registrations; oracle: echo host got exactly the application bytes, client got the echo, one dial, registration still matchable after 11 min + sweep; the second connection is, in a third of the runs, a one-way transfer of a minute (upload into a silent covert, download to a silent client); the station holds 0-2 older private keys in front of the one the clients use; a connection to the phantom while the registration is still being validated (worker inside the liveness probe) before the client connects; hand-built obfs4 client handshakes with the minimum / maximum padding length the protocol allows",
    note="trusted: simnet, synctest clock, seamgen overlay, echo actor; obfs4's 2-cut space and the pacing space are sampled; accept-loop glue re-implemented",
    tech=TECH + " (segmentation enumeration + seeded schedule/pacing search through the real station)"),
  "C05": dict(cat="fault_enumeration", ref="5 C05",
@@ -31,7 +31,7 @@ CHECKS = {
    note="trusted: the admission model (from the property text), recorder stubs for liveness / peer API / detector; messages whose completeness the property leaves open are not generated; repeats of rejected messages are don't-cares",
    tech=TECH + " (decision table through the simulated environment: liveness verdicts, peer delivery, duplicates; executable model as oracle)"),
  "C08": dict(cat="exploration", ref="5 C08",
-   text="all histories up to length 3 (thorough 6, bounded per root) over a 12-operation alphabet are enumerated and long random histories sampled against the real registry under the simulated clock, compared after every step with an expiry reference model; two operations are a sweep raced by a connection handler (lookup, then activation) and a sweep raced by a re-registration, each as two tasks whose interleaving at the registry's lock operations the tape decides (systematic part: at most 2 preemptions per history); additional population (real main() of cmd/application as a task of the simulation, DESIGN 9.2): registrations, connections and idle periods of up to 7 h 15 min against the running station, whose own 3-minute sweeper goroutine is the only thing that expires anything; a registration 65 min past its lifetime must be gone, a younger one must still be there",
+   text="all histories up to length 3 (thorough 6, bounded per root) over a 12-operation alphabet are enumerated and long random histories sampled against the real registry under the simulated clock, compared after every step with an expiry reference model; two operations are a sweep raced by a connection handler (lookup, then activation) and a sweep raced by a re-registration, each as two tasks whose interleaving at the registry's lock operations the tape decides (systematic part: at most 2 preemptions per history); additional population (real main() of cmd/application as a task of the simulation, DESIGN 9.2): registrations, connections and idle periods of up to 7 h 15 min against the running station, whose own 3-minute sweeper goroutine is the only thing that expires anything; a registration 65 min past its lifetime must be gone, a younger one must still be there; a flood scenario: 5000-11000 unused registrations within a minute and half as many nine minutes later, one sweep at 11 min 10 s must leave exactly the second flood",
    note="trusted: synctest fake clock; the reference model (30 lines) written from the property text; ages within 1 ms of a threshold are don't-cares; for a registration that is about to expire while a connection arrives either outcome of the race is accepted (removed entirely, or kept as used)",
    tech=TECH + " (simulated clock, history enumeration + seeded search, reference model)"),
  "C14": dict(cat="exploration", ref="5 C14",
@@ -43,11 +43,11 @@ CHECKS = {
    note="trusted: pion dtls/sctp internals run uninstrumented inside the bubble (their goroutines become tasks only when they enter the listener's locks); the datagram simnet lives in the harness; 'same secret => completes' is only demanded when no datagram fault fired",
    tech=TECH + " (script enumeration below the real stream stack, lock-level scheduling of the listener, simulated datagram network with loss / duplication / delay, simulated clock for the watchdog)"),
  "C17": dict(cat="fault_enumeration", ref="5 C17",
-   text="all single faults: outcome class (no registration, no transport, found via min/prefix/obfs4, transport error) plus connecting-transport registrations whose Connect fails with DTLS-shaped errors or is relayed, x client family (IPv4, IPv6, v4-mapped) x PROXY-header flag x 17 operation sites on the client connection, the dial and the covert connection x every error shape of that operation; pairs of faults and registration-path events sampled; LOG_CLIENT_IP unset or spelled out as a false value; everything the process writes to stdout/stderr/std logger is captured and searched for every textual form of the client address",
+   text="all single faults: outcome class (no registration, no transport, found via min/prefix/obfs4, transport error) plus connecting-transport registrations whose Connect fails with DTLS-shaped errors or is relayed, x client family (IPv4, IPv6, v4-mapped) x PROXY-header flag x 17 operation sites on the client connection, the dial and the covert connection x every error shape of that operation; pairs of faults and registration-path events sampled; LOG_CLIENT_IP unset or spelled out as a false value; everything the process writes to stdout/stderr/std logger is captured and searched for every textual form of the client address; socket-option calls on the accepted connection fail with OpErrors (fault kind sockopt); the connection a connecting transport returns wraps the errors of the connection below (%w), as a layered transport does",
    note="trusted: simnet's error shapes mirror the net package's (OpError text with both endpoints); the capture redirects os.Stdout/os.Stderr before any logger is created; statistics printers are exercised under C19, not here",
    tech=TECH + " (fault enumeration over I/O call sites x error shapes with log capture)"),
  "C18": dict(cat="exploration", ref="5 C18",
-   text="all 5-operation histories (thorough: 12) over {query x3 addresses, flip host, advance past either lifetime, ClearExpiredCache} for map and LRU x {both, live only, non-live only} x capacities 0..2 are enumerated and long random histories with independently generated Config fields sampled, under the simulated clock with a scripted probe; concurrent part: every schedule with <= 3 preemptions for 8 small scenarios at the package's lock operations and probes, plus random ones; oracle: measurement-history model (no stale / flipped / unmeasured cached answer), LRU recency model (evicted entries not served), capacity bound at every quiescent point, probe called once",
+   text="all 5-operation histories (thorough: 12) over {query x3 addresses, flip host, advance past either lifetime, ClearExpiredCache} for map and LRU x {both, live only, non-live only} x capacities 0..2 are enumerated and long random histories with independently generated Config fields sampled, under the simulated clock with a scripted probe; concurrent part: every schedule with <= 3 preemptions for 8 small scenarios at the package's lock operations and probes, plus random ones; oracle: measurement-history model (no stale / flipped / unmeasured cached answer), LRU recency model (evicted entries not served), capacity bound at every quiescent point, probe called once; the auxiliary stress run (quick: 6 processes x 120 iterations) has iterations whose verdicts expire while it runs, with clean-up goroutines running beside insertions and evictions",
    note="trusted: measurement-history and recency models; golang-lru is not instrumented (its eviction callback runs after the library releases its own lock at the pinned version - checked at start-up, with a suppress path otherwise); an age of exactly the lifetime is judged (must be measured again), ages strictly between the lifetime and lifetime + 1 ms are don't-cares; cache hits are never demanded; an auxiliary free-running stress run under the race detector (capacity oracle at quiescent ends, statistical) covers switches inside critical sections, which the lock-level scheduler does not produce",
    tech=TECH + " (simulated clock, history enumeration, lock-level scheduler with bounded-preemption enumeration, reference models)"),
  "C19": dict(cat="exploration", ref="5 C19",
